@@ -15,7 +15,8 @@ import aave_lib as AL
 from aaverisk_lib import Case, Exact, close, TOL
 
 PROPERTY = "C12"
-LEAN_MODULES = ["Proofs.C12", "Proofs.C12.Loop", "Proofs.C12.Pick", "Proofs.C12.Refine", "Proofs.C12.RefineStep", "Proofs.C12.RefineLoop"]
+LEAN_MODULES = ["Proofs.C12", "Proofs.C12.Loop", "Proofs.C12.Pick", "Proofs.C12.Refine", "Proofs.C12.RefineStep", "Proofs.C12.RefineLoop",
+                "Proofs.C12.DebtCheck", "Proofs.C12.RefineUpdate"]
 DRIVERS = ["driver_aaverisk"]
 RULE = ("portfolios over the uppercase symbols of the four risk-parameter CSVs: 1-3 collateral supplies (+ optional non-collateral supply), "
         "1-3 debts, liquidity/borrow indices 1..3 different per token, prices log-uniform over 11 decades (1e-6 .. 1e5), debts scaled so that the health factor "
@@ -61,11 +62,17 @@ def gen_case(rng, stream):
     colls = rng.sample(collable, min(ncoll, len(collable)))
     ndebt = rng.choice([1, 1, 2, 2, 3])
     debts = rng.sample(names, min(ndebt, len(names)))
+    if stream == "random" and rng.random() < 0.25 and colls[0] not in debts:
+        debts[rng.randrange(len(debts))] = colls[0]        # the same token supplied as collateral and borrowed
     extra = [n for n in rng.sample(names, 1) if n not in colls] if rng.random() < 0.35 else []
     toks = {}
     for n in dict.fromkeys(colls + extra + debts):
         toks[n] = {"li": _idx(rng, exact), "bi": _idx(rng, exact), "p": _price(rng, exact)}
     rp_over = {}
+    if stream == "random" and rng.random() < 0.12:
+        # a collateral that adds no borrowing power (baseLTVasCollateral = 0: frozen / isolated reserves); liquidation goes by the
+        # liquidation threshold and must not care
+        rp_over[rng.choice(colls)] = {"baseLTVasCollateral": "0"}
     # supplies
     supplies = []
     equal_vals = exact and rng.random() < 0.5
@@ -467,6 +474,17 @@ def end_reason(obs):
 def check_case(ctx: Ctx, case: Case, stream, tag, reqs, path=(), rescue=None):
     allobs = observe(case, path, rescue)
     rep = {"case": case.to_json(), "stream": stream, "tag": tag, "path": list(path)}
+    sup_n, deb_n = {s[0] for s in case.supplies}, {d[0] for d in case.debts}
+    if sup_n & deb_n:
+        ctx.count("feature:same-token-supplied-and-borrowed")
+    if any(s[2] and D(case.rp_over.get(s[0], {}).get("baseLTVasCollateral", "1")) == 0 for s in case.supplies):
+        ctx.count("feature:zero-ltv-collateral-held")
+    if any(L.TOKEN_DECIMALS.get(n.upper()) == 6 for n in sup_n | deb_n):
+        ctx.count("feature:six-decimal-token-held")
+    if path and all(all(t[n]["p"] == case.toks[n]["p"] for n in t) for t in path):
+        ctx.count("feature:quiet-bars-only-indices-move")
+    if tag in ("tiny", "dust-left"):
+        ctx.count("feature:hf-in-(0,1e-6]")
     if rescue:
         rep["rescue"] = rescue
         stream += "+userops"
